@@ -1,5 +1,4 @@
 CONSTANTS
-  LineCache <- EmptyCache
   Impl = "asis"
   Clocks <- ClocksSmall
   Chans <- ChansSmall
